@@ -39,6 +39,6 @@ try:
 finally:
     if os.path.exists("/repo/tests/seed_demo.rs"):
         os.remove("/repo/tests/seed_demo.rs")
-    sh("git reset -q --hard HEAD", cwd="/repo")
+    sh("git reset -q --hard HEAD && git clean -fdq -e target", cwd="/repo")
     shutil.rmtree("/verif/replays", ignore_errors=True)
 print(json.dumps(res))
